@@ -1296,7 +1296,7 @@ func (self *Analyzer) castExpression(node pAst.CastExpression) ast.AnalyzedCastE
 		}
 	}
 
-	if err := self.TypeCheck(base.Type(), asType, TypeCheckOptions{}); err != nil {
+	if err := self.TypeCheck(base.Type(), asType, TypeCheckOptions{ValidatedAtRuntime: true}); err != nil {
 		// check if the cast is legal
 		self.error(
 			fmt.Sprintf("Impossible cast: cannot cast value of type '%s' to '%s'", base.Type(), asType),
@@ -1360,6 +1360,12 @@ func (self *Analyzer) ifExpression(node pAst.IfExpression) ast.AnalyzedIfExpress
 				self.diagnostics = append(self.diagnostics, *err.ExpectedDiagnostic)
 			}
 			resultType = ast.NewUnknownType()
+		} else if err := self.checkThenBranchOption(thenBlock.ResultType, elseBlock.ResultType); err != nil {
+			// The result has the type of the `else` branch: an option in the `then` branch must fit it as well
+			// (an `any` inside of its type would otherwise hide behind the type of the `else` branch).
+			err.GotDiagnostic.Notes = append(err.GotDiagnostic.Notes, "The `if` and `else` branches must result in the identical type")
+			self.diagnostics = append(self.diagnostics, err.GotDiagnostic)
+			resultType = ast.NewUnknownType()
 		} else {
 			resultType = elseBlock.ResultType
 
@@ -1398,6 +1404,17 @@ func (self *Analyzer) ifExpression(node pAst.IfExpression) ast.AnalyzedIfExpress
 		ResultType: resultType,
 		Range:      node.Range,
 	}
+}
+
+// Options are exempt from the implicit-`any` rule: check the `then` branch against the `else` branch as well.
+func (self *Analyzer) checkThenBranchOption(thenType ast.Type, elseType ast.Type) *CompatibilityError {
+	if thenType.Kind() != ast.OptionTypeKind || elseType.Kind() != ast.OptionTypeKind {
+		return nil
+	}
+	return self.TypeCheck(thenType, elseType, TypeCheckOptions{
+		AllowFunctionTypes:          true,
+		IgnoreFnParamNameMismatches: false,
+	})
 }
 
 //
